@@ -1387,6 +1387,7 @@ static void c18_build_and_free(void) {
   if (c18_phase == 2) { }
   else if (!strcmp(pattern, "pages")) { alloc_many(200, 8000, 8192, 0); alloc_many(40, 30000, 32768, 0); }
   else if (!strcmp(pattern, "segments")) { alloc_many(100, 900000, 1048576, 0); }
+  else if (!strcmp(pattern, "holes")) { alloc_many(20, 1000000, 1048576, 0); }        /* 1 MiB pages of ONE segment, every fourth is freed: separate purge ranges in every 4 MiB part of the segment (its later pages keep it in use: the ordinary activity allocates there) */
   else if (!strcmp(pattern, "huge")) { alloc_many(5, (size_t)17 << 20, (size_t)40 << 20, 0);        /* single-block segments */
                                        if (mi_option_get(mi_option_purge_delay) < 0) {      /* purging disabled: also the two places where huge blocks are reset directly */
                                          int a_ = op_alloc_ex(A_malloc_aligned, (size_t)3 << 20, (size_t)32 << 20, 0, 0, 0);      /* over-aligned huge block: unused prefix */
@@ -1405,6 +1406,7 @@ static void c18_build_and_free(void) {
     int keep = 0; int rid = slots[s].id - base;
     if (keep_every && !strcmp(pattern, "pages")) keep = (rid > 150 && rid <= 200) || (rid % 40 == 0);   /* free whole pages, keep the segment alive */
     if (keep_every && !strcmp(pattern, "segments")) keep = (rid > 92);
+    if (keep_every && !strcmp(pattern, "holes")) keep = (rid % 4 != 1);
     if (keep_every && !strcmp(pattern, "huge")) keep = (rid > 4);                                   /* whole segments go back, the last stays */
     if (!keep) tofree[nf++] = s;
   }
